@@ -286,3 +286,25 @@ PROPS["C18"] = {
             checks=(250, 2000), shards=(2, 8), tests=["concurrent"]),
     ],
 }
+
+_PIPE_FILES = ["file_handler/file_handler.go", "apps/appcore/app_core.go", "rtcm/handler/handler.go", "rtcm/pushback/byte_channel.go"]
+
+PROPS["C09"] = {
+    "title": "The reader-to-sinks pipeline delivers the same messages under every schedule",
+    "level": "exploration",
+    "technique": "property-based testing (rapid) of the pipeline under perturbed schedules: generated reader chunking/pauses, consumer capacities/speeds, GOMAXPROCS, -race, and yield points injected by source rewriting; oracle: differential against the library's sequential framing + termination + goroutine-leak + race detector",
+    "level_text": ("Sampled-schedule exploration with a differential oracle: every non-nil consumer must receive exactly the (type, raw bytes) sequence that sequential "
+                   "framing of the same bytes gives, the call must return 0, and no pipeline goroutine may remain. The harness owns what Go lets it own - reader chunking "
+                   "and pauses, bufio size, consumer capacity and speed, nil entries, GOMAXPROCS, and (instrumented legs) seeded yields/sleeps before and after every "
+                   "channel operation, go statement and close in the four pipeline files - and the race detector checks each executed schedule. Interleavings are "
+                   "sampled, not enumerated: Go has no controllable scheduler."),
+    "rule": ("Cases: (adversarial stream, reader chunk script + pause script, EOF with or after the last data, bufio size, 1-4 consumers {nil | capacity 0/1/16 x speed script}, "
+             "GOMAXPROCS, yield seed/mode/density). Non-trivial = at least 3 messages and (two consumers of different capacity/speed or a nil entry); distinct = distinct case hash."),
+    "assumptions": ["Go race detector (happens-before on executed schedules)", "goroutines are identified by function names in runtime.Stack", "30 s bound on return (normal < 10 ms)", "Go toolchain, rapid v1.3.0"],
+    "min_evals": {"quick": 800, "thorough": 30000},
+    "legs": [
+        Leg("pipeline", "c09", "^TestPipeline$", engine="sched", checks=(500, 4000), shards=(2, 8), tests=["pipeline"]),
+        Leg("pipeline-race", "c09", "^TestPipeline$", engine="sched", race=True, checks=(200, 2000), shards=(2, 8), tests=["pipeline"]),
+        Leg("pipeline-yield-race", "c09", "^TestPipeline$", engine="sched", race=True, instrument=_PIPE_FILES, checks=(150, 2000), shards=(2, 16), tests=["pipeline"]),
+    ],
+}
